@@ -3,14 +3,50 @@ import common as cm
 import gen
 import anno
 import vcommon
+import samgen
 from vcommon import IMPORTS, CHECK_FN
 
 RULE = ("gapped reference/query rows with many insertions and deletions (adjacent to each other, to feature boundaries and "
         "to both ends); each case is run twice: as generated and with k random double-gap columns inserted into every row "
         "(the metamorphic companion of C05_invariant_under_double_gap_columns) - the two outputs must be byte-identical; "
         "every row is also checked against ins/del lists computed from the statement, and the Coq model is compared byte "
-        "for byte. Non-trivial: the query has >=2 indels. Distinct by case content.")
-ASSUMPTIONS = ["FASTA-MSA form here; the SAM form of the same statement is exercised by C11 (sam variants = variants)"]
+        "for byte. SAM form: the same pairwise relations written as one SAM record per query (CIGAR from the rows, all queries "
+        "handled by one worker, runs of queries with equal total inserted length at different sites included) are given to "
+        "`sam variants`, whose rows must equal the FASTA-MSA rows. Non-trivial: the query has >=2 indels. Distinct by case content.")
+ASSUMPTIONS = ["the Coq model is the FASTA-MSA form; the SAM form is compared Go against Go (and against the statement oracle through the MSA rows)"]
+
+
+def cigar_of(ref, que):
+    ops = []
+    for r, q in zip(ref, que):
+        o = "I" if r == "-" else "D" if q == "-" else "M"
+        if ops and ops[-1][0] == o:
+            ops[-1] = (o, ops[-1][1] + 1)
+        else:
+            ops.append((o, 1))
+    return ops
+
+
+def equal_width_pairs(rng, genome):
+    """2-4 pairwise rows whose insertions have the same total length at different reference positions, plus a deletion or
+    substitution elsewhere: consecutive queries with gapped references of equal width."""
+    n = len(genome)
+    tot = rng.randint(1, 3)
+    out = []
+    for _ in range(rng.randint(2, 4)):
+        a = rng.randint(1, n - 2)
+        d = rng.randint(1, n - 3)
+        dl = rng.randint(1, 2)
+        ref, que = [], []
+        for i in range(n):
+            if d <= i < d + dl and not (i == 0 or i == n - 1):
+                ref.append(genome[i]); que.append("-")
+            else:
+                ref.append(genome[i]); que.append(genome[i] if rng.random() < 0.9 else rng.choice("ACGT"))
+            if i + 1 == a:
+                ref.append("-" * tot); que.append(gen.rand_seq(rng, tot))
+        out.append(("".join(ref), "".join(que)))
+    return out
 
 
 def indel_rows(rng, genome):
@@ -107,7 +143,7 @@ def generate(ctx):
         genome, feats = anno.patch_stops(rng, genome, feats)
         if not feats:
             continue
-        pairs = [indel_rows(rng, genome) for _ in range(rng.randint(1, 3))]
+        pairs = equal_width_pairs(rng, genome) if rng.random() < 0.3 else [indel_rows(rng, genome) for _ in range(rng.randint(1, 3))]
         ref_row, rows = merge_rows(pairs)
         annob = anno.render_genbank(genome, feats, rng) if suffix == "gb" else anno.render_gff(genome, feats)
         variants = [(ref_row, rows, "plain")]
@@ -120,7 +156,8 @@ def generate(ctx):
                                             {"kind": "%s:%s" % (suffix, tag), "nontrivial": nind >= 2, "group": group},
                                             append_snps=True,
                                             info={"ref_row": rr, "queries": [(nm, r) for nm, r in recs if nm != "REF"],
-                                                  "features": feats, "genbank": suffix == "gb"}))
+                                                  "features": feats, "genbank": suffix == "gb", "pairs": pairs if tag == "plain" else None,
+                                                  "genome": genome, "annob": annob, "suffix": suffix}))
             cid += 1
     return cs
 
@@ -143,4 +180,45 @@ def post_go(ctx, cases, obs):
             c["sample"]["oracle_problems"] = ["output changed when double-gap columns were added (companion case id %d)" % cl[0]["id"]]
             if c not in bad:
                 bad.append(c)
+    # ---- SAM form of the same pairwise relations
+    stage, plan = [], []
+    for c in cases:
+        pairs = c["info"].get("pairs")
+        if not pairs or obs[c["id"]]["status"] != "ok":
+            continue
+        genome = c["info"]["genome"]
+        recs = []
+        for k, (ref, que) in enumerate(pairs):
+            recs.append({"name": "q%d" % k, "flag": 0, "pos": 0, "cigar": cigar_of(ref, que), "seq": que.replace("-", "").upper().replace("?", "N")})
+        samb = samgen.render_sam("REF", len(genome), recs)
+        refb = gen.layout(ctx.rng, [("REF", genome)], "plain")
+        stage.append({"id": len(stage), "op": "samvariants", "sam": cm.b64(samb), "ref": cm.b64(refb), "anno": cm.b64(c["info"]["annob"]),
+                      "suffix": c["info"]["suffix"], "ref_from_file": True, "start": -1, "end": -1, "append_snps": True, "aggregate": False, "threads": 1})
+        plan.append((c, samb))
+    if stage:
+        res = cm.go_run(stage, ctx.log)
+        for k, (c, samb) in enumerate(plan):
+            o = res[k]
+            msa_rows = dict(anno.parse_rows(cm.unb64(obs[c["id"]]["out"]))[1])
+            probs = []
+            if o["status"] != "ok":
+                probs.append("sam variants refused the SAM form of the same alignment: %s %s" % (o["status"], o.get("err", "")[:200]))
+            else:
+                for name, muts in anno.parse_rows(cm.unb64(o["out"]))[1]:
+                    if msa_rows.get(name) != muts:
+                        probs.append("%s: SAM form reports %r, FASTA-MSA form reports %r" % (name, muts, msa_rows.get(name)))
+            if probs:
+                c["sample"].setdefault("oracle_problems", [])
+                c["sample"]["oracle_problems"] += probs[:3]
+                c["sample"]["sam_form"] = samb.decode()
+                if c not in bad:
+                    bad.append(c)
+        _state["sam_form_runs"] = len(stage)
     return bad
+
+
+_state = {}
+
+
+def coverage_extra(ctx):
+    return {"sam_form_runs": _state.get("sam_form_runs", 0)}
